@@ -414,9 +414,22 @@ def concat_parts(expr):
             return None
         return l + r
     if isinstance(expr, ast.Constant) and isinstance(expr.value, str):
-        return [("lit", expr.value)]
+        return [("lit", expr.value)] if expr.value else []
     if isinstance(expr, ast.Attribute) and isinstance(expr.value, ast.Name) and expr.value.id == "self":
         return [("attr", expr.attr)]
+    if isinstance(expr, ast.JoinedStr):
+        out = []
+        for v in expr.values:
+            if isinstance(v, ast.Constant):
+                out.append(("lit", v.value))
+            elif isinstance(v, ast.FormattedValue) and v.conversion == -1 and v.format_spec is None:
+                sub = concat_parts(v.value)
+                if sub is None:
+                    return None
+                out += sub
+            else:
+                return None
+        return out
     if isinstance(expr, ast.IfExp):
         t = expr.test
         neg = False
@@ -442,10 +455,20 @@ def string_properties(pm: "PyModel"):
         for name, mem in ci.members.items():
             if mem.kind != "property":
                 continue
-            body = strip_docstring(mem.node.body)
-            if len(body) != 1 or not isinstance(body[0], ast.Return) or body[0].value is None:
+            if name.startswith("_"):
                 continue
-            parts = concat_parts(body[0].value)
+            body = strip_docstring(mem.node.body)
+            if len(body) == 1 and isinstance(body[0], ast.Return) and body[0].value is not None:
+                parts = concat_parts(body[0].value)
+            else:
+                parts = None
+            if parts is not None and any(p_[0] == "attr" and p_[1].startswith("_") for p_ in parts):
+                parts = None          # built from a private helper property: look through it
+            if parts is None:
+                # not literally `return <concat>`: look at the normal form (helper properties, f-strings, if/else returns ...)
+                fi_ = pm.functions.get(f"{ci.qual}.{name}")
+                e = nreturn(pm, fi_) if fi_ is not None and len(list(ast.walk(mem.node))) < 120 else None
+                parts = concat_parts(e) if e is not None else None
             if not parts or len(parts) < 2 or not any(p[0] == "attr" for p in parts):
                 continue
             if name in found and found[name][0] != parts:
